@@ -138,7 +138,7 @@ func genCase(t *rapid.T) Case {
 	feat := map[string]bool{}
 
 	// ---- flags ----
-	ignore := rapid.IntRange(0, 4).Draw(t, "ignore") < 2
+	ignore := rapid.IntRange(0, 9).Draw(t, "ignore") >= 7
 	allowLoad := !(ignore && loadIgnoreSwitch())
 	if ignore {
 		c.Flags = append(c.Flags, "-ignore-errors")
